@@ -26,7 +26,7 @@ import copy
 import json
 import os
 
-from .model import dotted, unparse, clone
+from .model import dotted, unparse, clone, set_parents
 
 KNOWN_PATH = os.path.join(os.path.dirname(os.path.abspath(__file__)), "known_symbols.json")
 
@@ -862,6 +862,16 @@ def _class_constants(repo, known):
                     continue
                 cands[nm] = v
             if cands:
+                # a class constant may be defined in terms of an earlier one (bare name in the class body): resolve those first
+                for _ in range(4):
+                    changed_ = False
+                    for nm in list(cands):
+                        v = cands[nm]
+                        if any(isinstance(x, ast.Name) and x.id in cands and x.id != nm and isinstance(x.ctx, ast.Load) for x in ast.walk(v)):
+                            cands[nm] = _SubstName({k: w for k, w in cands.items() if k != nm}).visit(clone(v))
+                            changed_ = True
+                    if not changed_:
+                        break
                 out[(rel, cn)] = cands
     return out
 
@@ -1171,9 +1181,12 @@ def rename_normal_form(repo, known, rebuild):
             triples = []
             for K in ks:
                 kname = short(K)
-                if kname in all_names:
-                    continue       # the old name is still in use somewhere: not (only) a renaming
                 rc = [c for c in refs.get(K, []) if c in current]
+                # the old name must be out of use where it used to mean K: in K's own scope (class / module) and in the functions
+                # that referred to K (a like-named method of an unrelated class elsewhere does not count)
+                local_users = [k2 for k2 in current if scope(k2) == sc] + rc
+                if any(kname in cur_refs[k2] for k2 in local_users) or (not cq and kname in all_names):
+                    continue
                 for U in cands:
                     if len(U.params) != arity.get(K, -1):
                         continue
@@ -1216,29 +1229,79 @@ def rename_normal_form(repo, known, rebuild):
 
     # ---- instance attributes
     inst = known.get("instance_attrs", {})
-    amap = {}
+    ref_order = known.get("instance_attr_order", {})
+    amap_votes = {}
     fn_names = {f.name for m in repo.modules.values() for f in m.all_functions()}
-    stored_everywhere = {}
-    for rel, m in repo.modules.items():
-        for cn, ci in m.classes.items():
-            for f in ci.methods.values():
-                for x in ast.walk(f.node):
-                    if isinstance(x, ast.Attribute) and isinstance(x.ctx, ast.Store) and isinstance(x.value, ast.Name) and x.value.id == "self":
-                        stored_everywhere.setdefault(x.attr, set()).add(("%s::%s" % (rel, cn), f.name))
     all_attr_names = set()
     for m in repo.modules.values():
         all_attr_names |= _ref_names(m.tree)
+    ref_attr_names = {a for v in inst.values() for a in v}
+
+    def first_stores(ci):
+        seq, seen = [], set()
+        for fn in [x for x in ci.node.body if isinstance(x, _FUNC)]:
+            for st in sorted([y for y in ast.walk(fn) if isinstance(y, ast.stmt)], key=lambda y: (y.lineno, y.col_offset)):
+                tg = st.targets if isinstance(st, ast.Assign) else ([st.target] if isinstance(st, (ast.AnnAssign, ast.AugAssign)) else [])
+                for t in tg:
+                    for x in ast.walk(t):
+                        if isinstance(x, ast.Attribute) and isinstance(x.ctx, ast.Store) and isinstance(x.value, ast.Name) and x.value.id == "self" and x.attr not in seen:
+                            seen.add(x.attr)
+                            v = getattr(st, "value", None)
+                            seq.append([x.attr, fn.name, ast.unparse(v) if v is not None and t is x else ""])
+        return seq
     for ck, ref_attrs in sorted(inst.items()):
         rel, cn = ck.split("::")
         m = repo.modules.get(rel)
         if m is None or cn not in m.classes:
             continue
-        cur = {a for a, sites in stored_everywhere.items() if any(c == ck for c, _ in sites)}
-        gone = [a for a in ref_attrs if a not in cur and a not in all_attr_names]
-        fresh = [a for a in sorted(cur) if a not in ref_attrs and a not in fn_names and not any(a in v for v in inst.values())]
-        if len(gone) == 1 and len(fresh) == 1:
-            amap.setdefault(fresh[0], set()).add(gone[0])
-    amap = {k: next(iter(v)) for k, v in amap.items() if len(v) == 1}
+        cur_seq = first_stores(m.classes[cn])
+        cur = [a for a, _fn, _v in cur_seq]
+        ref_seq = ref_order.get(ck) or [[a, "", ""] for a in ref_attrs]
+        ci_ = m.classes[cn]
+
+        def still_used(attr):
+            """The old name is still in use for this class: anywhere in its module, or through a non-self receiver / a related class elsewhere."""
+            for rel2, m2 in repo.modules.items():
+                for x in ast.walk(m2.tree):
+                    if isinstance(x, ast.Name) and x.id == attr and rel2 == rel:
+                        return True
+                    if isinstance(x, ast.Attribute) and x.attr == attr:
+                        if rel2 == rel:
+                            return True
+                        if isinstance(x.value, ast.Name) and x.value.id in ("self", "cls") and _unrelated_class(repo, m2, x, ci_):
+                            continue
+                        return True
+            return False
+        gone = [e for e in ref_seq if e[0] not in cur and not still_used(e[0])]
+        fresh = [e for e in cur_seq if e[0] not in ref_attrs and e[0] not in fn_names and e[0] not in ref_attr_names]
+        if not gone or len(gone) != len(fresh):
+            continue
+        # k-th vanished attribute (in the order of first stores) <-> k-th new one; the stored values have to read the same
+        # once the other pairings of this class are applied
+        pairs = list(zip(gone, fresh))
+        ren = {f[0]: g[0] for g, f in pairs}
+
+        def norm_text(txt):
+            try:
+                t_ = ast.parse(txt, mode="eval")
+            except SyntaxError:
+                return txt
+            for x in ast.walk(t_):
+                if isinstance(x, ast.Attribute) and x.attr in ren:
+                    x.attr = ren[x.attr]
+                if isinstance(x, ast.Attribute) and x.attr in mapping:
+                    x.attr = mapping[x.attr]
+                if isinstance(x, ast.Name) and x.id in mapping:
+                    x.id = mapping[x.id]
+            return ast.unparse(t_)
+        ok = True
+        for g, f in pairs:
+            if g[2] and f[2] and norm_text(f[2]) != g[2] and len(pairs) > 1:
+                ok = False
+        if ok:
+            for g, f in pairs:
+                amap_votes.setdefault(f[0], set()).add(g[0])
+    amap = {k: next(iter(v)) for k, v in amap_votes.items() if len(v) == 1}
     if amap:
         changed = set()
         for rel, m in repo.modules.items():
@@ -1462,6 +1525,451 @@ def inline_adjacent_temps(repo, rebuild):
     return total
 
 
+# ---------------------------------------------------------------------------------------------------------------------
+# literal folding: loops / comprehensions over a literal sequence of constants, setattr / getattr with a constant name
+
+
+def _const_elems(e):
+    """Elements of a tuple / list display whose elements are all constants (or tuples of constants), else None."""
+    if isinstance(e, (ast.Tuple, ast.List)) and len(e.elts) <= 32:
+        ok = all(isinstance(x, ast.Constant) or (isinstance(x, ast.Tuple) and all(isinstance(y, ast.Constant) for y in x.elts)) for x in e.elts)
+        return list(e.elts) if ok else None
+    return None
+
+
+class _SubstName(ast.NodeTransformer):
+    def __init__(self, mapping):
+        self.m = mapping
+
+    def visit_Name(self, node):
+        if isinstance(node.ctx, ast.Load) and node.id in self.m:
+            return clone(self.m[node.id])
+        return node
+
+
+def _bind_target(target, value):
+    """{name: constant node} for `target` bound to the constant `value` (a Name, or a tuple of Names against a tuple constant)."""
+    if isinstance(target, ast.Name):
+        return {target.id: value}
+    if isinstance(target, (ast.Tuple, ast.List)) and isinstance(value, ast.Tuple) and len(target.elts) == len(value.elts) and \
+            all(isinstance(t, ast.Name) for t in target.elts):
+        return {t.id: v for t, v in zip(target.elts, value.elts)}
+    return None
+
+
+class _FoldLiterals(ast.NodeTransformer):
+    def __init__(self, module, repo):
+        self.module, self.repo, self.count = module, repo, 0
+        self.func_stack = []
+
+    # -- iterables -------------------------------------------------------------------------------------------------------
+    def _iter_elems(self, it):
+        els = _const_elems(it)
+        if els is not None:
+            return els
+        # <Class>.<attr> / self.<attr> / cls.<attr> naming a class-level display of constants (e.g. __slots__), read-only here
+        if isinstance(it, ast.Attribute) and isinstance(it.value, ast.Name):
+            ci = None
+            if it.value.id in ("self", "cls") and self.func_stack and self.func_stack[-1] is not None:
+                ci = self.func_stack[-1]
+            elif it.value.id in self.module.classes:
+                ci = self.module.classes[it.value.id]
+            if ci is not None and it.attr in ci.attrs:
+                return _const_elems(ci.attrs[it.attr])
+        return None
+
+    def visit_ClassDef(self, node):
+        self.func_stack.append(self.module.classes.get(node.name))
+        self.generic_visit(node)
+        self.func_stack.pop()
+        return node
+
+    # -- expressions -----------------------------------------------------------------------------------------------------
+    def visit_Call(self, node):
+        self.generic_visit(node)
+        d = dotted(node.func)
+        if d in ("list", "tuple") and len(node.args) == 1 and not node.keywords:
+            a = node.args[0]
+            if isinstance(a, (ast.Tuple, ast.List)) and not any(isinstance(x, ast.Starred) for x in a.elts):
+                self.count += 1
+                cls_ = ast.List if d == "list" else ast.Tuple
+                return ast.copy_location(cls_(elts=a.elts, ctx=ast.Load()), node)
+        if d == "getattr" and len(node.args) == 2 and not node.keywords and isinstance(node.args[1], ast.Constant) and \
+                isinstance(node.args[1].value, str) and node.args[1].value.isidentifier():
+            self.count += 1
+            return ast.copy_location(ast.Attribute(value=node.args[0], attr=node.args[1].value, ctx=ast.Load()), node)
+        if d in ("all", "any") and len(node.args) == 1 and not node.keywords:
+            seq = node.args[0]
+            vals = None
+            if isinstance(seq, (ast.List, ast.Tuple)) and not any(isinstance(x, ast.Starred) for x in seq.elts):
+                vals = list(seq.elts)
+            if vals is not None and 1 <= len(vals) <= 32:
+                self.count += 1
+                if len(vals) == 1:
+                    return vals[0]
+                return ast.copy_location(ast.BoolOp(op=ast.And() if d == "all" else ast.Or(), values=vals), node)
+        return node
+
+    def _unroll_comp(self, node, elt_of):
+        if len(node.generators) != 1:
+            return None
+        g = node.generators[0]
+        if g.ifs or g.is_async:
+            return None
+        els = self._iter_elems(g.iter)
+        if els is None:
+            return None
+        out = []
+        for v in els:
+            b = _bind_target(g.target, v)
+            if b is None:
+                return None
+            out.append(_SubstName(b).visit(clone(elt_of(node))))
+        return out
+
+    def visit_ListComp(self, node):
+        self.generic_visit(node)
+        out = self._unroll_comp(node, lambda n: n.elt)
+        if out is None:
+            return node
+        self.count += 1
+        return ast.copy_location(ast.List(elts=out, ctx=ast.Load()), node)
+
+    def visit_GeneratorExp(self, node):
+        self.generic_visit(node)
+        out = self._unroll_comp(node, lambda n: n.elt)
+        if out is None:
+            return node
+        # only where a generator is consumed at once: the argument of all / any / tuple / list / sum / b''.join ... is decided by the parent
+        p = getattr(node, "_parent", None)
+        if isinstance(p, ast.Call) and p.args and p.args[0] is node and len(p.args) == 1 and (dotted(p.func) in ("all", "any", "tuple", "list", "sum", "max", "min", "sorted", "set", "frozenset") or
+                                                                                              (isinstance(p.func, ast.Attribute) and p.func.attr == "join")):
+            self.count += 1
+            return ast.copy_location(ast.Tuple(elts=out, ctx=ast.Load()), node)
+        return node
+
+    # -- statements ------------------------------------------------------------------------------------------------------
+    def visit_Expr(self, node):
+        self.generic_visit(node)
+        c = node.value
+        if isinstance(c, ast.Call) and dotted(c.func) == "setattr" and len(c.args) == 3 and not c.keywords and isinstance(c.args[1], ast.Constant) and \
+                isinstance(c.args[1].value, str) and c.args[1].value.isidentifier():
+            self.count += 1
+            return ast.copy_location(ast.Assign(targets=[ast.Attribute(value=c.args[0], attr=c.args[1].value, ctx=ast.Store())], value=c.args[2]), node)
+        return node
+
+    def visit_Return(self, node):
+        self.generic_visit(node)
+        if isinstance(node.value, ast.IfExp):
+            # return A if c else B   ->   if c: return A  else: return B
+            self.count += 1
+            ie = node.value
+            return ast.copy_location(ast.If(test=ie.test, body=[ast.copy_location(ast.Return(value=ie.body), node)],
+                                            orelse=[ast.copy_location(ast.Return(value=ie.orelse), node)]), node)
+        return node
+
+    def visit_Assign(self, node):
+        self.generic_visit(node)
+        if isinstance(node.value, ast.IfExp) and all(isinstance(t, (ast.Name, ast.Attribute)) for t in node.targets):
+            # x = A if c else B   ->   if c: x = A  else: x = B        (the targets are evaluated after the value either way)
+            self.count += 1
+            ie = node.value
+            return ast.copy_location(ast.If(test=ie.test, body=[ast.copy_location(ast.Assign(targets=[clone(t) for t in node.targets], value=ie.body), node)],
+                                            orelse=[ast.copy_location(ast.Assign(targets=[clone(t) for t in node.targets], value=ie.orelse), node)]), node)
+        return node
+
+    def visit_For(self, node):
+        self.generic_visit(node)
+        if node.orelse:
+            return node
+        els = self._iter_elems(node.iter)
+        if els is None or not els:
+            return node
+        if any(isinstance(x, (ast.Break, ast.Continue)) for b in node.body for x in ast.walk(b)):
+            return node
+        names = {x.id for x in ast.walk(node.target) if isinstance(x, ast.Name)}
+        # the loop variable is not assigned in the body and not used after the loop
+        if any(isinstance(x, ast.Name) and x.id in names and isinstance(x.ctx, (ast.Store, ast.Del)) for b in node.body for x in ast.walk(b)):
+            return node
+        fn = getattr(node, "_parent", None)
+        while fn is not None and not isinstance(fn, _FUNC + (ast.Module, ast.ClassDef)):
+            fn = getattr(fn, "_parent", None)
+        if fn is not None:
+            inside = {id(x) for x in ast.walk(node)}
+            if any(isinstance(x, ast.Name) and x.id in names and id(x) not in inside for x in ast.walk(fn)):
+                return node
+        out = []
+        for v in els:
+            b = _bind_target(node.target, v)
+            if b is None:
+                return node
+            for st in node.body:
+                out.append(_SubstName(b).visit(clone(st)))
+        self.count += 1
+        return out
+
+
+def fold_literals(repo, rebuild):
+    changed = set()
+    for rel, m in repo.modules.items():
+        total = 0
+        for _ in range(3):
+            set_parents(m.tree)
+            tr = _FoldLiterals(m, repo)
+            tr.visit(m.tree)
+            total += tr.count
+            if not tr.count:
+                break
+        if total:
+            ast.fix_missing_locations(m.tree)
+            changed.add(rel)
+    if changed:
+        rebuild(repo, changed)
+    return len(changed)
+
+
+# ---------------------------------------------------------------------------------------------------------------------
+# aliases of attribute paths:  f = self.config.prf_f ... f(k, m)   ->   self.config.prf_f(k, m)
+
+
+def _attr_chain(e):
+    """(root name, [attr, ...]) of a pure attribute path, else None."""
+    path = []
+    while isinstance(e, ast.Attribute):
+        path.append(e.attr)
+        e = e.value
+    if isinstance(e, ast.Name) and path:
+        return e.id, list(reversed(path))
+    return None
+
+
+def _alias_path(e):
+    """(root name, names used as indices, attrs, has_subscript) of a path built from attribute accesses and subscripts with a
+    plain name / constant index (`a.b[i].c`, `table[k][0]`), else None."""
+    idx_names, attrs, sub = [], [], False
+    while isinstance(e, (ast.Attribute, ast.Subscript)):
+        if isinstance(e, ast.Attribute):
+            attrs.append(e.attr)
+            e = e.value
+        else:
+            sl = e.slice
+            if isinstance(sl, ast.Name):
+                idx_names.append(sl.id)
+            elif isinstance(sl, ast.Constant) or (isinstance(sl, ast.UnaryOp) and isinstance(sl.operand, ast.Constant)):
+                pass
+            else:
+                return None
+            sub = True
+            e = e.value
+    if isinstance(e, ast.Name) and (attrs or sub):
+        return e.id, idx_names, attrs, sub
+    return None
+
+
+def _inline_attr_aliases_in_function(fnode):
+    n_done = 0
+    for _round in range(12):
+        stores, loads, params, other = {}, {}, set(), set()
+        attr_stores = set()
+        for x in ast.walk(fnode):
+            if isinstance(x, ast.Name):
+                (loads if isinstance(x.ctx, ast.Load) else stores).setdefault(x.id, []).append(x)
+            elif isinstance(x, ast.arg):
+                params.add(x.arg)
+            elif isinstance(x, (ast.Global, ast.Nonlocal)):
+                other |= set(x.names)
+            elif isinstance(x, ast.Attribute) and isinstance(x.ctx, (ast.Store, ast.Del)):
+                attr_stores.add(x.attr)
+            elif isinstance(x, (ast.FunctionDef, ast.AsyncFunctionDef, ast.ClassDef)) and x is not fnode:
+                other.add(x.name)
+        todo = None
+        for st in ast.walk(fnode):
+            if not (isinstance(st, ast.Assign) and len(st.targets) == 1 and isinstance(st.targets[0], ast.Name)):
+                continue
+            x = st.targets[0].id
+            ch = _alias_path(st.value)
+            if ch is None or x in other or x in params or len(stores.get(x, ())) != 1 or not loads.get(x):
+                continue
+            root, idx_names, path, has_sub = ch
+            if root == x or x in idx_names or root in other or any(n_ in other for n_ in idx_names):
+                continue
+            here = (st.lineno, st.col_offset)
+            # the path means the same thing at every use: every name in it is bound only *before* the alias (textually - inside a
+            # loop both the rebinding and the alias are then re-executed in that order), none of its attributes is stored in this
+            # function, and no slot of the containers it walks through is re-bound after the alias
+            if any((w.lineno, w.col_offset) >= here for n_ in [root] + idx_names for w in stores.get(n_, ())):
+                continue
+            if any(a in attr_stores for a in path):
+                continue
+            if has_sub:
+                base_texts = set()
+                e_ = st.value
+                while isinstance(e_, (ast.Attribute, ast.Subscript)):
+                    e_ = e_.value
+                    base_texts.add(unparse(e_))
+                late = False
+                for y in ast.walk(fnode):
+                    if isinstance(y, ast.Subscript) and isinstance(y.ctx, (ast.Store, ast.Del)) and unparse(y.value) in base_texts and (y.lineno, y.col_offset) >= here:
+                        late = True
+                    if isinstance(y, ast.Call) and isinstance(y.func, ast.Attribute) and y.func.attr in _MUTATORS and unparse(y.func.value) in base_texts and \
+                            (y.lineno, y.col_offset) >= here:
+                        late = True
+                if late:
+                    continue
+                # a value that is re-bound in place through the alias (`b += ...`, `b = ...`) is not an alias use
+            # every use comes after the binding (textually, and not inside a nested function that could run earlier - it cannot
+            # run before its own definition, which also follows)
+            if any((u.lineno, u.col_offset) <= (st.lineno, st.col_offset) for u in loads[x]):
+                continue
+            holder = getattr(st, "_parent", None)
+            if holder is None:
+                continue
+            todo = (st, x, holder)
+            break
+        if todo is None:
+            return n_done
+        st, x, holder = todo
+        repl = st.value
+
+        class R(ast.NodeTransformer):
+            def visit_Name(self, node):
+                if node.id == x and isinstance(node.ctx, ast.Load):
+                    return ast.copy_location(clone(repl), node)
+                return node
+        R().visit(fnode)
+        for field in ("body", "orelse", "finalbody"):
+            lst = getattr(holder, field, None)
+            if isinstance(lst, list) and any(y is st for y in lst):
+                lst[:] = [y for y in lst if y is not st] or [ast.Pass()]
+        if isinstance(holder, ast.Try):
+            for h in holder.handlers:
+                if any(y is st for y in h.body):
+                    h.body[:] = [y for y in h.body if y is not st] or [ast.Pass()]
+        set_parents(fnode)
+        n_done += 1
+    return n_done
+
+
+def inline_attr_aliases(repo, rebuild):
+    changed = set()
+    for rel, m in repo.modules.items():
+        n = 0
+        set_parents(m.tree)
+        for f in [x for x in ast.walk(m.tree) if isinstance(x, _FUNC)]:
+            p = getattr(f, "_parent", None)
+            nested = False
+            while p is not None:
+                if isinstance(p, _FUNC):
+                    nested = True
+                    break
+                p = getattr(p, "_parent", None)
+            if not nested:
+                n += _inline_attr_aliases_in_function(f)
+        if n:
+            ast.fix_missing_locations(m.tree)
+            changed.add(rel)
+    if changed:
+        rebuild(repo, changed)
+    return len(changed)
+
+
+# ---------------------------------------------------------------------------------------------------------------------
+# dispatch tables:  T = {k1: f1, k2: f2}; h = T.get(key); if h is None: <refuse>; h(args)   ->   if key == k1: f1(args) elif ... else: <refuse>
+
+
+def _lower_dispatch_in_block(stmts, fnode):
+    """One rewrite in this statement list (returns True if something changed)."""
+    for i, st in enumerate(stmts):
+        if not (isinstance(st, ast.Assign) and len(st.targets) == 1 and isinstance(st.targets[0], ast.Name) and isinstance(st.value, ast.Dict)):
+            continue
+        T = st.targets[0].id
+        d = st.value
+        if not d.keys or any(k is None or not isinstance(k, ast.Constant) for k in d.keys) or len(d.keys) > 16:
+            continue
+        if any(not (isinstance(v, ast.Name) or _attr_chain(v) is not None) for v in d.values):
+            continue
+        if i + 3 > len(stmts):
+            continue
+        look, j = stmts[i + 1], i + 1
+
+        def get_call(a):
+            """h, key  for  h = T.get(key) / T.get(key, None)"""
+            if isinstance(a, ast.Assign) and len(a.targets) == 1 and isinstance(a.targets[0], ast.Name) and isinstance(a.value, ast.Call) and \
+                    isinstance(a.value.func, ast.Attribute) and a.value.func.attr == "get" and isinstance(a.value.func.value, ast.Name) and a.value.func.value.id == T and \
+                    not a.value.keywords and (len(a.value.args) == 1 or (len(a.value.args) == 2 and isinstance(a.value.args[1], ast.Constant) and a.value.args[1].value is None)):
+                return a.targets[0].id, a.value.args[0]
+            return None
+        gc = get_call(look)
+        if gc is None and isinstance(look, ast.Try) and len(look.body) == 1 and not look.orelse and not look.finalbody:
+            gc = get_call(look.body[0])
+            # handlers may only turn a failing look-up (unhashable key) into "not found"
+            for h_ in look.handlers:
+                if not (len(h_.body) == 1 and isinstance(h_.body[0], ast.Assign) and gc is not None and len(h_.body[0].targets) == 1 and
+                        isinstance(h_.body[0].targets[0], ast.Name) and h_.body[0].targets[0].id == gc[0] and
+                        isinstance(h_.body[0].value, ast.Constant) and h_.body[0].value.value is None):
+                    gc = None
+        if gc is None:
+            continue
+        h, key = gc
+        if not isinstance(key, (ast.Name, ast.Attribute)):
+            continue
+        guard = stmts[j + 1] if j + 1 < len(stmts) else None
+        use = stmts[j + 2] if j + 2 < len(stmts) else None
+        if not (isinstance(guard, ast.If) and not guard.orelse and isinstance(guard.test, ast.Compare) and len(guard.test.ops) == 1 and
+                isinstance(guard.test.ops[0], ast.Is) and isinstance(guard.test.left, ast.Name) and guard.test.left.id == h and
+                isinstance(guard.test.comparators[0], ast.Constant) and guard.test.comparators[0].value is None and
+                guard.body and isinstance(guard.body[-1], (ast.Raise, ast.Return))):
+            continue
+        call = None
+        if isinstance(use, ast.Expr) and isinstance(use.value, ast.Call):
+            call = use.value
+        elif isinstance(use, (ast.Return, ast.Assign)) and isinstance(use.value, ast.Call):
+            call = use.value
+        if call is None or not (isinstance(call.func, ast.Name) and call.func.id == h):
+            continue
+        # T and h are used for nothing else
+        n_T = sum(1 for x in ast.walk(fnode) if isinstance(x, ast.Name) and x.id == T)
+        n_h = sum(1 for x in ast.walk(fnode) if isinstance(x, ast.Name) and x.id == h)
+        n_h_expected = 3 + (len(look.handlers) if isinstance(look, ast.Try) else 0)
+        if n_T != 2 or n_h != n_h_expected:
+            continue
+        chain = None
+        for k, v in reversed(list(zip(d.keys, d.values))):
+            one = clone(use)
+            c2 = one.value
+            c2.func = clone(v)
+            test = ast.Compare(left=clone(key), ops=[ast.Eq()], comparators=[clone(k)])
+            chain = ast.If(test=test, body=[one], orelse=[chain] if chain is not None else [clone(x) for x in guard.body])
+        stmts[i:j + 3] = [ast.copy_location(chain, st)]
+        return True
+    return False
+
+
+def lower_dispatch_tables(repo, rebuild):
+    changed = set()
+    for rel, m in repo.modules.items():
+        n = 0
+        for f in [x for x in ast.walk(m.tree) if isinstance(x, _FUNC)]:
+            again = True
+            while again:
+                again = False
+                for holder in ast.walk(f):
+                    for field in ("body", "orelse", "finalbody"):
+                        lst = getattr(holder, field, None)
+                        if isinstance(lst, list) and lst and isinstance(lst[0], ast.stmt) and _lower_dispatch_in_block(lst, f):
+                            again = True
+                            n += 1
+                            break
+                    if again:
+                        break
+        if n:
+            ast.fix_missing_locations(m.tree)
+            changed.add(rel)
+    if changed:
+        rebuild(repo, changed)
+    return len(changed)
+
+
 def normalize(repo, rebuild):
     """Expand unknown helpers/constants in `repo` (a raw Repo).  `rebuild(repo, rels)` re-indexes the changed modules.
 
@@ -1493,6 +2001,8 @@ def normalize(repo, rebuild):
     if changed:
         rebuild(repo, changed)
 
+    if lower_dispatch_tables(repo, rebuild):
+        notes.append("dispatch table(s) over constant keys lowered to if / elif chains")
     # -- helpers ------------------------------------------------------------------------------------------------------
     kf = set(known["functions"])
     for _round in range(4):
@@ -1544,6 +2054,8 @@ def normalize(repo, rebuild):
             for rel in dropped:
                 ast.fix_missing_locations(repo.modules[rel].tree)
             rebuild(repo, dropped)
+    inline_attr_aliases(repo, rebuild)
+    fold_literals(repo, rebuild)
     repo.temps_inlined = inline_adjacent_temps(repo, rebuild)
     return notes
 
